@@ -34,15 +34,18 @@ type Profile struct {
 	// SettleBeforeValueChange injects claim_all before slashes and before blocks (C12/C13 main campaigns).
 	SettleBeforeValueChange bool
 	HugeAmounts             bool
-	InvalidPct              int // percentage of user ops deliberately targeting invalid inputs
-	FocusDelPct             int // percentage of delegator draws forced to delegator 0 (packs buckets)
+	InvalidPct              int  // percentage of user ops deliberately targeting invalid inputs
+	FocusDelPct             int  // percentage of delegator draws forced to delegator 0 (packs buckets)
+	FocusValPct             int  // percentage of delegate draws forced to validator 0 (several assets on one validator)
+	GovFuzz                 bool // governance messages with nil / negative / boundary / huge field values and all signers
 	NoOverflowGuard         bool
 }
 
 // generator-only composite kinds
 const (
-	GQuietNative   = "g:quiet_native"
-	GRedelThenExit = "g:redelegate_then_exit"
+	GQuietNative      = "g:quiet_native"
+	GRedelThenExit    = "g:redelegate_then_exit"
+	GExportAtBoundary = "g:export_at_block_boundary"
 )
 
 const (
@@ -179,6 +182,45 @@ func (g *Gen) anyDenom(name string) string {
 		return g.pickS(name, append([]string{"nonasset"}, AssetDenoms...))
 	}
 	return g.pickS(name, ds)
+}
+
+var badDecs = []string{"nil", "-1", "-0.000000000000000001", "0", "1", "1.000000000000000001", "1000000000000000000000000000000"}
+
+// fuzzGov perturbs a well-formed governance op: exactly one field (mode 1) or several (mode 2).
+func (g *Gen) fuzzGov(op Op) Op {
+	mode := g.intn("gov-mode", 10)
+	if mode < 4 {
+		return op // well-formed
+	}
+	n := 1
+	if mode >= 8 {
+		n = 1 + g.intn("gov-n", 4)
+	}
+	for i := 0; i < n; i++ {
+		switch g.intn("gov-field", 9) {
+		case 0:
+			op.Signer = g.pickS("signer", []string{"stranger", "malformed", "empty", "delegator", "module"})
+			op.Legacy = false
+		case 1:
+			op.RW = g.pickS("bad-rw", badDecs)
+		case 2:
+			op.RWMin = g.pickS("bad-min", badDecs)
+		case 3:
+			op.RWMax = g.pickS("bad-max", badDecs)
+		case 4:
+			op.TakeRate = g.pickS("bad-take", badDecs)
+		case 5:
+			op.ChRate = g.pickS("bad-chrate", badDecs)
+		case 6:
+			op.ChInt = g.pickI("bad-chint", []int64{-1, -9223372036854775808, 0, 1, 9223372036854775807})
+		case 7:
+			op.Denom = g.pickS("bad-denom", []string{"", "a", "1abc", "nonasset", "aaa", "ibc/4A5B6C7D8E9F0A1B2C3D4E5F6A7B8C9D0E1F2A3B4C5D6E7F8A9B0C1D2E3F4A5B", "weth18", "a b"})
+		case 8:
+			// swap min and max
+			op.RWMin, op.RWMax = op.RWMax, op.RWMin
+		}
+	}
+	return op
 }
 
 func (g *Gen) createOp(denom string, signer string) Op {
@@ -382,6 +424,9 @@ func (g *Gen) Step() {
 	switch kind {
 	case KDelegate:
 		op := Op{K: KDelegate, D: g.del(), V: g.intn("v", nv), Denom: g.anyDenom("denom"), Amt: g.freshAmount("amt")}
+		if g.p.FocusValPct > 0 && g.pct("focus-val", g.p.FocusValPct) {
+			op.V = 0
+		}
 		x.Apply(op)
 	case KUndelegate, KRedelegate, KClaim:
 		var op Op
@@ -540,6 +585,13 @@ func (g *Gen) Step() {
 				x.Apply(Op{K: KSlash, V: d.V, Frac: g.frac(), Power: p, Age: int64(g.intn("age", 2))})
 			}
 		}
+	case GExportAtBoundary:
+		if x.Twin != nil {
+			x.Apply(Op{K: KBlock, Dt: g.dt(), Fees: g.fees()})
+			return
+		}
+		x.Apply(Op{K: KBlock, Dt: g.dt(), Fees: g.fees()})
+		x.Apply(Op{K: KExportImp})
 	case GQuietNative:
 		// a native delegator removes a whole delegation (or delegates) and nothing else
 		// happens in that block; a quiet block follows
@@ -571,7 +623,11 @@ func (g *Gen) Step() {
 		if invalid {
 			signer = g.pickS("signer", []string{"stranger", "malformed", "empty", "delegator"})
 		}
-		x.Apply(g.createOp(g.pickS("cdenom", AssetDenoms), signer))
+		cop := g.createOp(g.pickS("cdenom", AssetDenoms), signer)
+		if g.p.GovFuzz {
+			cop = g.fuzzGov(cop)
+		}
+		x.Apply(cop)
 	case KUpdate:
 		signer := "auth"
 		if invalid {
@@ -579,6 +635,9 @@ func (g *Gen) Step() {
 		}
 		op := g.createOp(g.anyDenom("denom"), signer)
 		op.K = KUpdate
+		if g.p.GovFuzz {
+			op = g.fuzzGov(op)
+		}
 		x.Apply(op)
 	case KDelete:
 		signer := "auth"
@@ -591,7 +650,18 @@ func (g *Gen) Step() {
 		if invalid {
 			signer = g.pickS("signer", []string{"stranger", "malformed", "empty", "delegator"})
 		}
-		x.Apply(Op{K: KParams, Signer: signer, Delay: g.pickI("delay", g.p.Delays), Interval: g.pickI("interval", g.p.Intervals)})
+		pop := Op{K: KParams, Signer: signer, Delay: g.pickI("delay", g.p.Delays), Interval: g.pickI("interval", g.p.Intervals)}
+		if g.p.GovFuzz && g.pct("bad-params", 40) {
+			switch g.intn("bad-param-field", 3) {
+			case 0:
+				pop.Delay = g.pickI("bad-delay", []int64{-1, -9223372036854775808})
+			case 1:
+				pop.Interval = g.pickI("bad-interval", []int64{-1, 0, -9223372036854775808})
+			case 2:
+				pop.Signer = g.pickS("signer", []string{"stranger", "malformed", "empty", "delegator", "module"})
+			}
+		}
+		x.Apply(pop)
 	case KUnbTime:
 		x.Apply(Op{K: KUnbTime, Dt: g.pickI("unbtime", g.p.UnbTimes)})
 	case KMaxVals:
